@@ -158,7 +158,7 @@ def build(stream, p):
             if list(back_s) != list(bits) or list(back_i) != list(bits):
                 return "round trip returned %r / %r" % (back_s, back_i)
             return None
-        impl = lambda: guard(strict(run), lambda r: [digits(r[0]), [r[1]], [int(x) for x in r[2]], [int(x) for x in r[3]]])
+        impl = lambda: guard(strict(run), lambda r: [digits(r[0]), [r[1]], [int(x) for x in r[2]], [int(x) for x in r[3]]], seconds=1800)
         # model side: one composite call is not available; compare the two forward calls via a combined case
         return MultiCase(stream, p, calls + ["RT"], impl, oracle, bits)
     if stream == "dna":
@@ -181,7 +181,7 @@ def build(stream, p):
             if back_s != s or back_i != s:
                 return "round trip returned %r / %r" % (back_s, back_i)
             return None
-        impl = lambda: guard(strict(run), lambda r: [digits(r[0]), [r[1]], s2c(r[2]), s2c(r[3])])
+        impl = lambda: guard(strict(run), lambda r: [digits(r[0]), [r[1]], s2c(r[2]), s2c(r[3])], seconds=1800)
         return MultiCaseDna(stream, p, impl, oracle, s)
     n, L = p.get("n"), p.get("L")
     if stream in ("render_bits", "toowide_bits"):
